@@ -63,7 +63,7 @@ type item struct {
 	open   bool // first half of `var a, b = x, y`, waiting for the second
 }
 
-var indirectKinds = []string{"func", "chain", "method", "ptrmethod", "methodval", "methodexpr", "funcref"}
+var indirectKinds = []string{"func", "chain", "method", "ptrmethod", "methodval", "methodexpr", "funcref", "cycle", "cycle"}
 
 var sevenBits = rapid.SliceOfN(rapid.Bool(), 7, 7)
 
@@ -593,6 +593,29 @@ func (g *gen) render(p *gpkg) {
 	// variable units in declaration order
 	var helpers []item
 	funcFor := map[int]string{} // dep -> reusable plain helper
+	// dep -> mutually recursive helpers A, B: A(n) reads the variable when n
+	// reaches 0 and calls B otherwise, B(n) calls A. Several initialisers enter
+	// the same cycle at different functions.
+	cycleFor := map[int][2]string{}
+	cycleCall := func(dep int, r string) string {
+		c, ok := cycleFor[dep]
+		if !ok {
+			c = [2]string{g.helperName("f"), g.helperName("f")}
+			cycleFor[dep] = c
+			helpers = append(helpers, item{text: fmt.Sprintf("func %s(n int) int {\n\tif n <= 0 {\n\t\treturn %s\n\t}\n\treturn %s(n - 1)\n}\n", c[0], r, c[1])})
+			helpers = append(helpers, item{text: fmt.Sprintf("func %s(n int) int {\n\tif n <= 0 {\n\t\treturn 0\n\t}\n\treturn %s(n - 1)\n}\n", c[1], c[0])})
+			g.classes["edge:cycle-entered-first"] = true
+			if pct(t, "cyclefirst") < 50 {
+				return c[0] + "(2)"
+			}
+			return c[1] + "(1)"
+		}
+		g.classes["edge:cycle-entered-again"] = true
+		if pct(t, "cycleagain") < 50 {
+			return c[1] + fmt.Sprintf("(%d)", 1+2*rapid.IntRange(0, 1).Draw(t, "cyclen"))
+		}
+		return c[0] + fmt.Sprintf("(%d)", 2*rapid.IntRange(0, 2).Draw(t, "cyclen"))
+	}
 	need := map[string]bool{}
 	firstInline := 0 // first (in declaration order) unit calling pairlog, +1
 	expr := func(v *gvar) (string, map[string]bool) {
@@ -621,7 +644,13 @@ func (g *gen) render(p *gpkg) {
 				parts = append(parts, r)
 			case "closure":
 				parts = append(parts, fmt.Sprintf("func() int { return %s + %d }()", r, tm.k))
+			case "cycle":
+				parts = append(parts, cycleCall(tm.dep, r))
 			case "func", "funcref":
+				if _, ok := cycleFor[tm.dep]; ok && tm.kind == "func" && pct(t, "joincycle") < 60 {
+					parts = append(parts, cycleCall(tm.dep, r))
+					break
+				}
 				name, ok := funcFor[tm.dep]
 				if ok && pct(t, "reuse") < 50 {
 					g.classes["helper-function-shared-by-several-initialisers"] = true
